@@ -314,6 +314,54 @@ func checkNoClobber(x *Exec, r *Rig, p concParams, recs [][]opRec, contents map[
 			}
 		}
 	}
+	// (i') a reload whose old value was removed by an invalidation that the atomic handler reported after the loader
+	//      had been entered (whenever the invalidating call began) must not put its result back
+	for _, lc := range r.Loads {
+		if lc.Kind != "reload" && lc.Kind != "bulkreload" {
+			continue
+		}
+		for i, k := range lc.Keys {
+			if i >= len(lc.Olds) {
+				continue
+			}
+			if _, supplied := lc.Out[k]; !supplied || lc.Err != "" {
+				continue // a not-found reload removes the entry itself; a failed one installs nothing
+			}
+			var at int64 = -1
+			for _, e := range r.Atomic {
+				if e.Key == k && e.Val == lc.Olds[i] && e.Cause == otter.CauseInvalidation && e.At > lc.Enter {
+					at = e.At
+				}
+			}
+			if at < 0 {
+				continue
+			}
+			later := false
+			for _, rs := range recs {
+				for _, rc := range rs {
+					f := opFields(rc.op)
+					switch f[0] {
+					case "set", "sia", "cw", "cia", "cipw", "load", "bulk", "refresh", "bulkrefresh":
+						if rc.ret > at && (len(f) < 2 || strings.Contains(f[1], ",") || atoi(f[1]) == k) && !(rc.tid == lc.Thread && rc.call <= lc.Enter && rc.ret >= lc.Enter) {
+							later = true
+						}
+					}
+				}
+			}
+			for _, o := range r.Loads {
+				if containsKey(o.Keys, k) && o.Enter > at {
+					later = true
+				}
+			}
+			if later {
+				continue
+			}
+			x.Count("invalidated-during-reload")
+			if got, present := contents[k]; present {
+				x.Fail("load-overwrote-invalidation", "reload"+lbl, "value %d of key %d was invalidated (atomic handler at %d) after its reload had entered the loader at %d, yet afterwards the cache holds %d", lc.Olds[i], k, at, lc.Enter, got)
+			}
+		}
+	}
 	// (ii) the callers that ran or joined a successful load still receive the loaded value
 	for _, rs := range recs {
 		for _, rc := range rs {
